@@ -5,7 +5,7 @@
 (* asmjit/x86/x86operand.h, asmjit/arm/a64operand.h and core/archcommons.h (enum    *)
 (* doc comments, the `|....XXXX|` bit diagrams above every field mask, the register *)
 (* trait table with its X86|X64|A32|A64 columns), not from the C++ expressions.     *)
-EXTENDS Integers, Sequences, FiniteSets
+EXTENDS Integers, Sequences, FiniteSets, TLC
 
 (* ---- OperandType ("Operand type used by Operand_") ------------------------------ *)
 OpNone == 0   OpReg == 1   OpMem == 2   OpRegList == 3   OpImm == 4   OpLabel == 5
@@ -100,12 +100,12 @@ LayoutLossless(L) == \A k \in DOMAIN KindFields : \A f \in KindFields[k] :
 FieldMax(L, f) == 2^(L[f][2]) - 1
 
 (* signature as a function 0..31 -> {0,1} *)
-SigZero == [b \in 0..31 |-> 0]
+SigZero == TLCEval([b \in 0..31 |-> 0])
 SigGet(L, sig, f) == LET sh == L[f][1] w == L[f][2] g[k \in 0..w] == IF k = 0 THEN 0 ELSE g[k - 1] + sig[sh + k - 1] * 2^(k - 1) IN g[w]
 (* `_bits = (_bits & ~FieldMask) | (value << shift)`: what the documented set_field does (value within the field) *)
 SigSet(L, sig, f, v) == LET sh == L[f][1] w == L[f][2] IN
-                        [b \in 0..31 |-> IF b >= sh /\ b < sh + w THEN (v \div 2^(b - sh)) % 2 ELSE sig[b]]
-SigOfLimbs(l) == [b \in 0..31 |-> (l[(b \div 16) + 1] \div 2^(b % 16)) % 2]
+                        TLCEval([b \in 0..31 |-> IF b >= sh /\ b < sh + w THEN (v \div 2^(b - sh)) % 2 ELSE sig[b]])
+SigOfLimbs(l) == TLCEval([b \in 0..31 |-> (l[(b \div 16) + 1] \div 2^(b % 16)) % 2])
 
 (* ---- small enumerations of the backends ------------------------------------------------------------------ *)
 (* x86::Mem::AddrType: kDefault = 0, kAbs = 1, kRel = 2;  Broadcast: kNone = 0, k1To2 = 1 ... k1To64 = 6      *)
